@@ -268,6 +268,9 @@ pub enum Spec {
     Sym286,
     Dist30,
     DistBeforeStart,
+    /// a length symbol in a block whose distance code is empty, or a distance bit pattern that the block's
+    /// single one-bit distance code leaves unassigned
+    MatchNoDist,
     ZBadCm,
     ZBadCinfo,
     ZFdict,
@@ -275,7 +278,7 @@ pub enum Spec {
     ZWrongAdler,
 }
 
-pub const ALL_SPECS: [Spec; 20] = [
+pub const ALL_SPECS: [Spec; 21] = [
     Spec::Btype3,
     Spec::LenNlen,
     Spec::ClOver,
@@ -291,6 +294,7 @@ pub const ALL_SPECS: [Spec; 20] = [
     Spec::Sym286,
     Spec::Dist30,
     Spec::DistBeforeStart,
+    Spec::MatchNoDist,
     Spec::ZBadCm,
     Spec::ZBadCinfo,
     Spec::ZFdict,
@@ -577,7 +581,8 @@ fn write_block(
         | Spec::Hlit287
         | Spec::Hdist31
         | Spec::Repeat16First
-        | Spec::RunOverflow => btype = 2,
+        | Spec::RunOverflow
+        | Spec::MatchNoDist => btype = 2,
         Spec::DistBeforeStart => {
             if btype == 0 {
                 btype = 1
@@ -621,7 +626,10 @@ fn write_block(
         plain.extend_from_slice(&data);
         return 0;
     }
-    let style = rng.next_u64();
+    let mut style = rng.next_u64();
+    if poison == Spec::MatchNoDist {
+        style &= !0xC; // literals only
+    }
     let n = if rng.chance(1, 12) { 0 } else { ntok };
     let out_budget = if n == 0 { 0 } else { rng.range(n / 2 + 1, n * 2 + 2) };
     let mut toks = match preset {
@@ -685,6 +693,16 @@ fn write_block(
             }
         }
     }
+    // MatchNoDist: the block has a code for one length symbol but no (or only one one-bit) distance code
+    let nd_len_sym = 257 + rng.usize_below(29);
+    let nd_single = rng.chance(1, 2);
+    let nd_dist_sym = rng.usize_below(30);
+    if poison == Spec::MatchNoDist && btype == 2 {
+        ll_used[nd_len_sym] = true;
+        if nd_single {
+            d_used[nd_dist_sym] = true;
+        }
+    }
     let (ll_lens, d_lens): (Vec<u8>, Vec<u8>);
     if btype == 1 {
         let mut ll = vec![0u8; 288];
@@ -718,7 +736,7 @@ fn write_block(
             _ => 30,
         };
         let deep_d = rng.pick(&[0u64, 30, 90]);
-        let extra_d = if n_d_used == 0 && rng.chance(1, 2) { 0 } else { extra_d };
+        let extra_d = if (n_d_used == 0 && rng.chance(1, 2)) || poison == Spec::MatchNoDist { 0 } else { extra_d };
         let d = random_code(rng, 30, &d_used, 15, true, deep_d, extra_d);
         let nll = ll.iter().filter(|&&l| l > 0).count();
         let nd = d.iter().filter(|&&l| l > 0).count();
@@ -864,6 +882,17 @@ fn write_block(
                 w.bits(de, deb);
             }
         }
+    }
+    if poison == Spec::MatchNoDist && btype == 2 {
+        // the length symbol with its extra bits, then a distance that the block's distance code cannot express
+        w.huff(ll_codes[nd_len_sym], ll_lens[nd_len_sym] as u32);
+        let eb = lt.extra[nd_len_sym - 257] as u32;
+        w.bits(rng.below(1 << eb) as u32, eb);
+        let nd = d_lens.iter().filter(|&&l| l > 0).count();
+        if nd == 1 && d_lens[nd_dist_sym] == 1 {
+            w.bits(1, 1); // the single code is '0'; '1' is the unassigned pattern
+        }
+        w.bits(rng.below(1 << 13) as u32, 13);
     }
     if poison == Spec::Sym286 {
         let s = rng.range(286, 287);
